@@ -96,7 +96,8 @@ def base_namespace():
         "_eq": _eq, "forall": _forall, "exists": _exists, "implies": lambda a, b: (not a) or bool(b),
         "iff": lambda a, b: bool(a) == bool(b), "sumto": _sumto, "toreal": float,
         "toint": lambda v: int(v), "abs": abs, "min": min, "max": max, "len": len, "int": int, "float": float,
-        "sqrt": np.sqrt, "np": np, "True": True, "False": False,
+        "sqrt": np.sqrt, "sin": np.sin, "cos": np.cos, "exp": np.exp, "log": np.log, "arctan2": np.arctan2,
+        "radians": np.radians, "np": np, "True": True, "False": False,
     }
     for name, sp in SPECS.items():
         ns[name] = sp.py
@@ -257,7 +258,7 @@ def _short(v):
 
 # --------------------------------------------------------------------------- replay files
 
-REPLAY_DIR = os.path.join(os.path.dirname(os.path.dirname(os.path.abspath(__file__))), "replays")
+REPLAY_DIR = os.environ.get("VERIF_REPLAY_DIR", os.path.join(os.path.dirname(os.path.dirname(os.path.abspath(__file__))), "replays"))
 
 
 def write_replay(prop, kind, where, inputs, outcome: Outcome = None, obligation=None, solver=None, extra=None):
